@@ -836,6 +836,9 @@ class R:
         q = floor(self / o)
         return self - q * o
 
+    def __rmod__(self, o):
+        return R.of(o) % self
+
     def __neg__(self):
         return R(tneg(self.n) if _isz(self.n) else -self.n, self.d)
 
